@@ -1,0 +1,222 @@
+//go:build verif
+
+package url
+
+import (
+	"fmt"
+	"hash/fnv"
+	"sort"
+
+	"github.com/bits-and-blooms/bitset"
+)
+
+// Verification hooks, compiled only with the "verif" build tag. They observe the
+// parser (main-loop steps, cursor advances, state transitions) and fingerprint the
+// package-level tables. They never change what the parser computes, except that an
+// exceeded step budget (set by the monitor) ends the call with a VerifBudgetExceeded panic.
+//
+// The counters are deliberately plain variables: atomics would add happens-before
+// edges and hide data races from the race detector. Monitors that run goroutines keep
+// VerifEnabled false.
+
+// VerifNumStates is the number of parser states (NoState..StateRelativeSlash).
+const VerifNumStates = int(StateRelativeSlash) + 1
+
+var (
+	// VerifEnabled switches the counting hooks on.
+	VerifEnabled bool
+	// VerifSteps counts iterations of the BasicParser main loop since the last reset.
+	VerifSteps int64
+	// VerifCursorMoves counts inputString.nextCodePoint calls since the last reset.
+	VerifCursorMoves int64
+	// VerifBudget is the limit for VerifSteps and for VerifCursorMoves (0 = no limit).
+	VerifBudget int64
+	// VerifCalls counts BasicParser invocations.
+	VerifCalls int64
+	// VerifEdges[override][from][to] counts observed state transitions; from = NoState
+	// is the entry edge of a call.
+	VerifEdges [2][VerifNumStates][VerifNumStates]uint64
+
+	verifPrev State
+)
+
+// VerifBudgetExceeded is the panic value used when the step budget is exceeded.
+type VerifBudgetExceeded struct {
+	Steps, CursorMoves, Budget int64
+}
+
+func (e VerifBudgetExceeded) Error() string {
+	return fmt.Sprintf("verif: step budget exceeded: steps=%d cursor=%d budget=%d", e.Steps, e.CursorMoves, e.Budget)
+}
+
+// VerifReset clears the per-call counters and sets the budget.
+func VerifReset(budget int64) {
+	VerifSteps = 0
+	VerifCursorMoves = 0
+	VerifBudget = budget
+}
+
+func verifEnter() {
+	if !VerifEnabled {
+		return
+	}
+	VerifCalls++
+	verifPrev = NoState
+}
+
+func verifTick(s State, override bool) {
+	if !VerifEnabled {
+		return
+	}
+	VerifSteps++
+	o := 0
+	if override {
+		o = 1
+	}
+	if int(s) >= 0 && int(s) < VerifNumStates {
+		VerifEdges[o][verifPrev][s]++
+		verifPrev = s
+	}
+	if VerifBudget > 0 && VerifSteps > VerifBudget {
+		panic(VerifBudgetExceeded{VerifSteps, VerifCursorMoves, VerifBudget})
+	}
+}
+
+func verifCursor() {
+	if !VerifEnabled {
+		return
+	}
+	VerifCursorMoves++
+	if VerifBudget > 0 && VerifCursorMoves > VerifBudget {
+		panic(VerifBudgetExceeded{VerifSteps, VerifCursorMoves, VerifBudget})
+	}
+}
+
+// VerifStateName names a parser state.
+func VerifStateName(s State) string {
+	names := [...]string{"NoState", "SchemeStart", "Scheme", "NoScheme", "OpaquePath",
+		"SpecialRelativeOrAuthority", "SpecialAuthoritySlashes", "SpecialAuthorityIgnoreSlashes",
+		"PathOrAuthority", "Authority", "Host", "Hostname", "File", "FileHost", "FileSlash",
+		"Port", "Path", "PathStart", "Query", "Fragment", "Relative", "RelativeSlash"}
+	if int(s) >= 0 && int(s) < len(names) {
+		return names[s]
+	}
+	return fmt.Sprintf("State(%d)", int(s))
+}
+
+type verifHasher struct {
+	h interface {
+		Write([]byte) (int, error)
+		Sum64() uint64
+	}
+}
+
+func (v verifHasher) str(s string)   { fmt.Fprintf(v.h, "%d:%s;", len(s), s) }
+func (v verifHasher) boolean(b bool) { fmt.Fprintf(v.h, "%t;", b) }
+func (v verifHasher) bits(name string, b *bitset.BitSet) {
+	if b == nil {
+		v.str(name + "=nil")
+		return
+	}
+	v.str(name)
+	for i, ok := b.NextSet(0); ok; i, ok = b.NextSet(i + 1) {
+		fmt.Fprintf(v.h, "%d,", i)
+	}
+	fmt.Fprintf(v.h, "|%d;", b.Len())
+}
+func (v verifHasher) set(name string, p *PercentEncodeSet) {
+	if p == nil {
+		v.str(name + "=nil")
+		return
+	}
+	fmt.Fprintf(v.h, "%d;", p.allBelow)
+	v.bits(name, p.bs)
+}
+func (v verifHasher) smap(name string, m map[string]string) {
+	v.str(name)
+	if m == nil {
+		v.str("nil")
+		return
+	}
+	keys := make([]string, 0, len(m))
+	for k := range m {
+		keys = append(keys, k)
+	}
+	sort.Strings(keys)
+	for _, k := range keys {
+		v.str(k)
+		v.str(m[k])
+	}
+}
+func (v verifHasher) opts(o *parserOptions) {
+	v.boolean(o.reportValidationErrors)
+	v.boolean(o.failOnValidationError)
+	v.boolean(o.laxHostParsing)
+	v.boolean(o.collapseConsecutiveSlashes)
+	v.boolean(o.acceptInvalidCodepoints)
+	v.boolean(o.preParseHostFunc != nil)
+	v.boolean(o.postParseHostFunc != nil)
+	v.boolean(o.percentEncodeSinglePercentSign)
+	v.boolean(o.allowSettingPathForNonBaseUrl)
+	v.boolean(o.skipWindowsDriveLetterNormalization)
+	v.smap("specialSchemes", o.specialSchemes)
+	v.boolean(o.skipTrailingSlashNormalization)
+	if o.encodingOverride != nil {
+		v.str(o.encodingOverride.String())
+	} else {
+		v.str("utf-8")
+	}
+	v.set("path", o.pathPercentEncodeSet)
+	v.set("squery", o.specialQueryPercentEncodeSet)
+	v.set("query", o.queryPercentEncodeSet)
+	v.set("sfragment", o.specialFragmentPercentEncodeSet)
+	v.set("fragment", o.fragmentPercentEncodeSet)
+	v.boolean(o.skipEqualsForEmptySearchParamsValue)
+}
+
+// VerifTableFingerprint hashes every package-level table and the default parser's options.
+func VerifTableFingerprint() uint64 {
+	v := verifHasher{fnv.New64a()}
+	v.bits("ASCIITabOrNewline", ASCIITabOrNewline)
+	v.bits("ASCIIAlpha", ASCIIAlpha)
+	v.bits("ASCIIDigit", ASCIIDigit)
+	v.bits("ASCIIHexDigit", ASCIIHexDigit)
+	v.bits("ASCIIAlphanumeric", ASCIIAlphanumeric)
+	v.bits("C0control", C0control)
+	v.bits("C0controlOrSpace", C0controlOrSpace)
+	v.bits("ForbiddenHostCodePoint", ForbiddenHostCodePoint)
+	v.bits("ForbiddenDomainCodePoint", ForbiddenDomainCodePoint)
+	v.bits("someURLCodePoints", someURLCodePoints)
+	v.set("C0", C0PercentEncodeSet)
+	v.set("C0OrSpace", C0OrSpacePercentEncodeSet)
+	v.set("Fragment", FragmentPercentEncodeSet)
+	v.set("Query", QueryPercentEncodeSet)
+	v.set("SpecialQuery", SpecialQueryPercentEncodeSet)
+	v.set("Path", PathPercentEncodeSet)
+	v.set("UserInfo", UserInfoPercentEncodeSet)
+	v.set("Host", HostPercentEncodeSet)
+	v.smap("defaultSpecialSchemes", defaultSpecialSchemes)
+	if dp, ok := defaultParser.(*parser); ok {
+		v.opts(&dp.opts)
+	}
+	return v.h.Sum64()
+}
+
+// VerifParserFingerprint hashes the options of a Parser created by NewParser
+// (ok = false for any other implementation of the interface).
+func VerifParserFingerprint(p Parser) (fp uint64, ok bool) {
+	pp, ok := p.(*parser)
+	if !ok {
+		return 0, false
+	}
+	v := verifHasher{fnv.New64a()}
+	v.opts(&pp.opts)
+	return v.h.Sum64(), true
+}
+
+// VerifSetFingerprint hashes one percent-encode set.
+func VerifSetFingerprint(p *PercentEncodeSet) uint64 {
+	v := verifHasher{fnv.New64a()}
+	v.set("set", p)
+	return v.h.Sum64()
+}
